@@ -230,7 +230,75 @@ let run_frag (mk : (fmuxer, string) Stdlib.result) (ops : string list list) =
            | FrPanic -> print_endline "r panic"; stop := true)
         end) ops
 
+(* ---------- check mode: evaluate the Gallina decision predicates on the
+   implementation's output ---------- *)
+let impl_blocks (path : string) : (string, string list) Hashtbl.t =
+  let h = Hashtbl.create 1024 in
+  let ic = open_in path in
+  let cur = ref "" and acc = ref [] in
+  (try while true do
+    let l = input_line ic in
+    if String.length l > 5 && String.sub l 0 5 = "case " then begin cur := String.sub l 5 (String.length l - 5); acc := [] end
+    else if l = "end" then Hashtbl.replace h !cur (List.rev !acc)
+    else acc := l :: !acc
+  done with End_of_file -> ());
+  close_in ic; h
+
+let class_of_line (l : string) : rclass option =
+  match words l with
+  | "r" :: "ok" :: _ | "r" :: "stats" :: _ -> Some COk
+  | "r" :: "err" :: _ -> Some CErr
+  | "r" :: "panic" :: _ -> Some CPanic
+  | _ -> None
+
+let op_of_words w = match w with
+  | ["wv"; p; d; k] -> WV (n_of_hex p, bytes_of_hex d, b01 k)
+  | ["wvd"; p; t; d; k] -> WVD (n_of_hex p, n_of_hex t, bytes_of_hex d, b01 k)
+  | ["wa"; p; d] -> WA (n_of_hex p, bytes_of_hex d)
+  | ["ev"; d; ms] -> EV (bytes_of_hex d, n_of_hex ms)
+  | ["ea"; d; s] -> EA (bytes_of_hex d, n_of_hex s)
+  | ["fin"; _] -> FIN
+  | _ -> failwith "bad op"
+
+let pr_checks id l =
+  Printf.printf "chk %s %s\n" id (String.concat " " (List.map (fun (n, b) -> n ^ "=" ^ s01 b) l))
+
+let check_mux id (bops : bop list) (ops : string list list) (blk : string list) =
+  match blk with
+  | "build ok" :: rest ->
+      let cls = List.filter_map class_of_line rest in
+      let sink = List.fold_left (fun acc l -> match words l with ["sink"; h] -> bytes_of_hex h | _ -> acc) [] rest in
+      let b = run_builder bops in
+      let ops = List.map op_of_words ops in
+      (* the implementation stops at a consuming finish or a panic: align *)
+      let rec firstn k l = if k = 0 then [] else match l with [] -> [] | x :: t -> x :: firstn (k-1) t in
+      let ops = firstn (List.length cls) ops in
+      pr_checks id [
+        ("C01", check_C01 b ops cls sink);
+        ("C02", check_C02_mux b ops cls sink);
+        ("C03", check_C03 b ops cls sink);
+      ]
+  | _ -> pr_checks id []
+
+let check_frag id (blk : string list) =
+  let ok = ref true in
+  List.iter (fun l -> match words l with
+    | ["r"; "seg"; h] when h <> "none" -> if not (check_segment_structure (bytes_of_hex h)) then ok := false
+    | ["r"; "bytes"; h] -> if not (check_init_structure (bytes_of_hex h)) then ok := false
+    | _ -> ()) blk;
+  pr_checks id [("C02", !ok)]
+
+let check_fn id name args (blk : string list) =
+  let r = match blk with [l] when String.length l >= 2 -> String.sub l 2 (String.length l - 2) | _ -> "" in
+  match name with
+  | "annexb_to_avcc" | "hevc_annexb_to_hvcc" ->
+      pr_checks id [("C14", r <> "panic" && check_reframe (bytes_of_hex (List.nth args 0)) (bytes_of_hex r))]
+  | _ -> pr_checks id []
+
 let () =
+  let check = Array.length Sys.argv > 2 && Sys.argv.(1) = "check" in
+  let impl = if check then impl_blocks Sys.argv.(2) else Hashtbl.create 1 in
+  let blk id = try Hashtbl.find impl id with Not_found -> [] in
   let cur_id = ref "" and cur_kind = ref "" in
   let bops = ref [] and script = ref [] and ops = ref [] and fc = ref None in
   (try
@@ -239,7 +307,8 @@ let () =
       match words line with
       | [] -> ()
       | "case" :: id :: "fn" :: name :: args ->
-          Printf.printf "case %s\nr %s\nend\n" id (try run_fn name args with Failure m -> "driver-failure " ^ m)
+          if check then check_fn id name args (blk id)
+          else Printf.printf "case %s\nr %s\nend\n" id (try run_fn name args with Failure m -> "driver-failure " ^ m)
       | ["case"; id; kind] ->
           cur_id := id; cur_kind := kind; bops := []; script := []; ops := []; fc := None
       | "b" :: w -> bops := parse_bop w :: !bops
@@ -257,6 +326,12 @@ let () =
                        fc_vps = opt_hex vps; fc_av1 = opt_hex av1; fc_vp9 = vp9c }
       | "o" :: w -> ops := w :: !ops
       | ["end"] ->
+          if check then begin
+            (match !cur_kind with
+             | "mux" -> check_mux !cur_id (List.rev !bops) (List.rev !ops) (blk !cur_id)
+             | "frag" -> check_frag !cur_id (blk !cur_id)
+             | _ -> ())
+          end else begin
           Printf.printf "case %s\n" !cur_id;
           (match !cur_kind with
            | "mux" -> run_mux (List.rev !bops) !script (List.rev !ops)
@@ -270,6 +345,7 @@ let () =
                run_frag mk (List.rev !ops)
            | k -> print_endline ("unknown-kind " ^ k));
           print_endline "end"
+          end
       | _ -> failwith ("bad line: " ^ line)
     done
   with End_of_file -> ())
